@@ -336,10 +336,16 @@ QUICK_BUDGET_S = 4200  # cpu-seconds of queries per property (about 5.5 min of w
 SECONDARY_MAX_S = 200  # a query that fills the budget must be cheap
 
 
-def quick_selection(pid, seed=0, budget=None):
-    """[(h, cfg)] selected for the quick tier of `pid`, and the list left out for the budget."""
+def quick_selection(pid, seed=0, budget=None, changed=None):
+    """[(h, cfg)] selected for the quick tier of `pid`, and the list left out for the budget.
+    `changed`: names of functions that differ from /repo's HEAD (and their callers): the secondary queries that
+    encode one of them are taken first (and may cost up to 300 s), the rest fill the budget in the rotated order."""
     import os
     budget = budget if budget is not None else int(os.environ.get("VERIF_QUICK_BUDGET", QUICK_BUDGET_S))
+    changed = set(changed or ())
+
+    def touches(h):
+        return any(f.split("::")[-1].split(" ")[0] in changed for f in h["funcs"])
     prim, sec = [], []
     for h in HARNESSES:
         if pid not in h["props"] or h["tier"] != "quick":
@@ -351,8 +357,11 @@ def quick_selection(pid, seed=0, budget=None):
         k = seed % len(sec)
         sec = sec[k:] + sec[:k]
     chosen, left = list(prim), []
+    if changed:
+        rel = [(h, cfg) for h, cfg in sec if touches(h)]
+        sec = rel + [x for x in sec if x not in rel]
     for h, cfg in sec:
-        if total + cost(h) <= budget and cost(h) <= SECONDARY_MAX_S:
+        if total + cost(h) <= budget and cost(h) <= (300 if changed and touches(h) else SECONDARY_MAX_S):
             chosen.append((h, cfg))
             total += cost(h)
         else:
